@@ -352,7 +352,7 @@ PROPS = {
         "module": "Shutter.Properties.C17",
         "theorems": ["C17_match_total", "C17_alloc_bounded", "C17_match_spec_static", "C17_match_spec_topic",
                      "C17_match_spec_dynamic", "C17_filter_exists", "C17_filter_sound", "C17_decode_valid",
-                     "C17_rlp_roundtrip", "C17_roundtrip", "C17_roundtrip_bounds", "C17_marshal_injective"],
+                     "C17_rlp_roundtrip", "C17_roundtrip", "C17_roundtrip_bounds", "C17_marshal_injective", "C17_match_conjunction"],
         "driver": {"pkg": "./cmd/tdcheck"},
         "trusted_base": [KERNEL, CORR,
                          "modelled, not verified: go-ethereum rlp (re-implemented in the model with its canonical-form checks and compared "
